@@ -1,36 +1,42 @@
-/* Contract, loop invariant and IEEE stubs for utils::binary_interval_search (Route B2).
- * The function body is NOT here: it is extracted from include/smooth/detail/utils.hpp on every run by b2/extract.py. */
+/* Contract, loop invariant and stubs for utils::binary_interval_search (Route B2).
+ * The function body is NOT here: it is extracted from include/smooth/detail/utils.hpp on every run by b2/extract.py.
+ *
+ * Element abstraction (assumption A3'): the function touches range elements and the query only through <, <=, > and through the
+ * three stubbed arithmetic sub-expressions.  On NaN-free doubles the IEEE comparisons are a total preorder, so elements are
+ * modelled as elem_t = signed 64-bit integers (order-isomorphic to any finite chain of non-NaN doubles); NaN inputs are excluded by
+ * the contract's precondition (documented: "sorted range"). */
 #include <stddef.h>
 #include <stdint.h>
 
 #define NMAX 4096
+typedef long long elem_t;
 
-/* F1: a >= b (no NaN)  =>  fl(a - b) >= 0, and a > b => fl(a - b) > 0 (gradual underflow); result never NaN for finite inputs */
-double stub_sub(double a, double b)
-__CPROVER_requires(a == a && b == b)
+/* F1: a >= b => fl(a - b) >= 0;  a > b => fl(a - b) > 0 (gradual underflow: the difference of distinct doubles is non-zero) */
+double stub_sub(elem_t a, elem_t b)
 __CPROVER_ensures((a >= b) ==> (__CPROVER_return_value >= 0.0))
 __CPROVER_ensures((a > b) ==> (__CPROVER_return_value > 0.0))
 __CPROVER_assigns()
 ;
 
-/* F2: 0 <= num <= den, den > 0  =>  0 <= fl(num/den) <= 1 */
+/* F2: num >= 0, den > 0  =>  fl(num/den) >= 0 (not NaN) */
 double stub_div(double num, double den)
 __CPROVER_requires(den > 0.0 && num >= 0.0)
 __CPROVER_ensures(__CPROVER_return_value >= 0.0)
 __CPROVER_assigns()
 ;
 
-/* F3/F4: x >= 0, 0 <= d <= NMAX  =>  fl(x * (double)d) >= 0 and its truncation toward zero is a non-negative intptr_t
- * (for x <= 1 the product is <= NMAX; larger or NaN-free values clamp at ranges::next's bound, so only the sign matters) */
+/* F3/F4: x >= 0, 0 <= d <= NMAX  =>  the truncation toward zero of fl(x * (double)d) is a non-negative intptr_t.
+ * (num <= den by monotonicity of rounding gives x <= 1, so the product is <= NMAX and the conversion is defined; only the sign is
+ * needed below because ranges::next clamps at its bound.) */
 intptr_t stub_trunc_mul(double x, intptr_t d)
 __CPROVER_requires(x >= 0.0 && d >= 0 && d <= NMAX)
 __CPROVER_ensures(__CPROVER_return_value >= 0)
 __CPROVER_assigns()
 ;
 
-/* libstdc++ std::ranges::next(it, n, bound) for random-access iterators with a sized sentinel (bits/ranges_base.h:
- * ranges::advance): requires n and (bound - it) not to have opposite signs */
-static inline const double *ranges_next(const double *it, intptr_t n, const double *bound)
+/* libstdc++ std::ranges::next(it, n, bound) for random-access iterators with a sized sentinel (bits/ranges_base.h,
+ * ranges::advance): requires n and (bound - it) not to have opposite signs (checked as an assertion) */
+static inline const elem_t *ranges_next(const elem_t *it, intptr_t n, const elem_t *bound)
 {
   const intptr_t diff = bound - it;
   __CPROVER_assert(n == 0 || diff == 0 || ((n < 0) == (diff < 0)), "ranges::advance precondition (glibcxx assertion)");
@@ -38,3 +44,24 @@ static inline const double *ranges_next(const double *it, intptr_t n, const doub
   else if (n != 0) { return it + n; }
   return it;
 }
+
+#define OFF(p) __CPROVER_POINTER_OFFSET(p)
+#define LOOP_CONTRACT \
+  __CPROVER_assigns(left, rght, pivot) \
+  __CPROVER_loop_invariant(__CPROVER_same_object(left, r) && __CPROVER_same_object(rght, r) && __CPROVER_same_object(pivot, r)) \
+  __CPROVER_loop_invariant(OFF(left) % sizeof(elem_t) == 0 && OFF(rght) % sizeof(elem_t) == 0 && OFF(pivot) % sizeof(elem_t) == 0) \
+  __CPROVER_loop_invariant(0 <= OFF(left) && OFF(left) < OFF(rght) && OFF(rght) <= (__CPROVER_ssize_t)(n * sizeof(elem_t)) \
+                           && 0 <= OFF(pivot) && OFF(pivot) < (__CPROVER_ssize_t)(n * sizeof(elem_t))) \
+  __CPROVER_loop_invariant(*left <= t && t < *(rght - 1)) \
+  __CPROVER_decreases(rght - left)
+
+/* the four documented cases of detail/utils.hpp:24-38 as postconditions; frame: nothing */
+#define BIS_CONTRACT \
+  __CPROVER_requires(n <= NMAX && __CPROVER_is_fresh(r, (n > 0 ? n : 1) * sizeof(elem_t))) \
+  __CPROVER_ensures((n == 0) ==> (__CPROVER_return_value == r + n)) \
+  __CPROVER_ensures((n > 0 && t < r[0]) ==> (__CPROVER_return_value == r + n)) \
+  __CPROVER_ensures((n > 0 && !(t < r[0]) && t >= r[n - 1]) ==> (__CPROVER_return_value == r + n - 1)) \
+  __CPROVER_ensures((n > 0 && !(t < r[0]) && !(t >= r[n - 1])) ==> \
+     (__CPROVER_same_object(__CPROVER_return_value, r) && r <= __CPROVER_return_value && __CPROVER_return_value < r + n - 1 \
+      && *__CPROVER_return_value <= t && t < *(__CPROVER_return_value + 1))) \
+  __CPROVER_assigns()
